@@ -410,7 +410,9 @@ class Scheduler:
         self.switch_hash = hashlib.blake2b(digest_size=16)
         self.phase: dict[int, str] = {}
         self.phase_overlap: set[tuple[str, str]] = set()
-        self.site_trace: dict[int, list[int]] | None = None  # tid -> sites (dry runs only)
+        self.site_trace: dict[int, list[Any]] | None = None  # tid -> sites (dry runs only)
+        self.trace_subs = False  # record (site, line) pairs instead of sites
+        self.cur_sub = 0
         self.site_phase: list[str] = []
         self.parked_site: dict[int, int] = {}
         # aborts addressed relative to a call: {(epoch, tid, call): fault}; armed by the thread body
@@ -490,8 +492,9 @@ class Scheduler:
         s = self.step
         self.local[tid] = self.local.get(tid, 0) + 1
         self.hash.update(b"%d:%d:%d;" % (tid, site, sub))
+        self.cur_sub = sub
         if self.site_trace is not None:
-            self.site_trace.setdefault(tid, []).append(site)
+            self.site_trace.setdefault(tid, []).append((site, sub) if self.trace_subs else site)
         self.phase[tid] = self.site_phase[site - 1]
         if s > self.step_cap:
             self.cap_hit = True
